@@ -84,6 +84,12 @@ UNITS = {
         'complete': False, 'bound': 'one table with one fixed key name; every span value', 'timeout': 900,
         'title': 'ParseState span bookkeeping: a key/value extends the current table span to the value end and keeps its start; a [header] starts a table with exactly the header span (bounded: fixed key names, plain keys)',
     },
+    'K14d': {
+        'engine': 'kani', 'crate': 'toml_edit',
+        'harnesses': ['k14_despan_array', 'k14_despan_tables', 'k14_despan_scalar_and_item'],
+        'complete': False, 'bound': 'empty containers (every span); scalars over 4-byte ASCII inputs', 'timeout': 900,
+        'title': 'despan: Array / ArrayOfTables / Table / InlineTable forget their own span (every span); a scalar and the Item around it forget theirs and keep input[span] (bounded: empty containers, 4-byte inputs)',
+    },
     'K14r': {
         'engine': 'kani', 'crate': 'toml_edit', 'harnesses': ['k14_rawstring_despan'],
         'complete': False, 'bound': 'inputs of exactly 4 ASCII bytes, every span inside them',
@@ -119,6 +125,14 @@ UNITS = {
     'V9': {
         'engine': 'verus', 'complete': True,
         'title': 'hexescape::<N> closures: exactly N digits, hex value, Unicode scalar values only (unbounded, under assumed from_str_radix / char::from_u32 contracts)',
+    },
+    'V15': {
+        'engine': 'verus', 'complete': True,
+        'title': 'string value closures of parser/strings.rs: ml-literal body with every CRLF -> LF and nothing else changed; ml-basic newline contributes LF, line-ending backslash nothing, an escape its character (unbounded, under assumed str::contains / str::replace contracts)',
+    },
+    'V14': {
+        'engine': 'verus', 'complete': True,
+        'title': 'toml::de front end: Deserializer::new / ValueDeserializer::new keep exactly the text they are given (spans and error locations are offsets into the caller\'s text)',
     },
     'V13': {
         'engine': 'verus', 'complete': True,
@@ -173,6 +187,12 @@ UNITS = {
         'timeout': 3000, 'max_jobs': 4,
         'title': 'hexescape::<4>/<8> == O-esc hex_scalar on every 5- / 9-byte input (digits + lookahead)',
     },
+    'K8q': {
+        'engine': 'kani', 'crate': 'toml_edit', 'harnesses': ['k8_post_n1', 'k8_post_n2'],
+        'complete': False, 'bound': 'every valid UTF-8 input of 1..2 bytes x every index', 'timeout': 900,
+        'witness': ['witness-k8'], 'replay': 'replay-k8',
+        'title': 'translate_position: in-place contract == O-pos line_col, no panic (bounded input length 1..2)',
+    },
     'K8': {
         'engine': 'kani', 'crate': 'toml_edit',
         'harnesses': ['k8_post_n1', 'k8_post_n2', 'k8_post_n3'],
@@ -193,13 +213,13 @@ UNITS = {
 # property -> tier -> unit list
 PLAN = {
     'C10': {'quick': ['V1', 'K1'], 'thorough': ['V1', 'K1']},
-    'C04': {'quick': ['V1', 'V3', 'V4', 'V5', 'V6', 'V7', 'V9', 'V10', 'V11', 'K1', 'K12'], 'thorough': ['V1', 'V3', 'V4', 'V5', 'V6', 'V7', 'V9', 'V10', 'V11', 'K1', 'K12', 'K8t', 'K3t', 'K5']},
+    'C04': {'quick': ['V1', 'V3', 'V4', 'V5', 'V6', 'V7', 'V9', 'V10', 'V11', 'K1', 'K12', 'K8q'], 'thorough': ['V1', 'V3', 'V4', 'V5', 'V6', 'V7', 'V9', 'V10', 'V11', 'K1', 'K12', 'K8t', 'K3t', 'K5']},
     'C11': {'quick': ['K7', 'K7s', 'K6e', 'K6t', 'K6d', 'V8', 'V12', 'K11f'], 'thorough': ['K7', 'K7s', 'K6e', 'K6t', 'K6d', 'V8', 'V12', 'K11f']},
     'C01': {'quick': ['K1', 'K7', 'V4', 'V8', 'V9', 'K2'], 'thorough': ['K1', 'K7', 'V4', 'V8', 'V9', 'K2', 'K2y', 'K5']},
-    'C02': {'quick': ['K2', 'K7s', 'K6t', 'K6d', 'V5', 'V7', 'V8', 'V9', 'V11', 'V12'], 'thorough': ['K2', 'K2y', 'K7s', 'K6t', 'K6d', 'V5', 'V7', 'V8', 'V9', 'V11', 'V12', 'K5']},
+    'C02': {'quick': ['K2', 'K7s', 'K6t', 'K6d', 'V5', 'V7', 'V8', 'V9', 'V11', 'V12', 'V15'], 'thorough': ['K2', 'K2y', 'K7s', 'K6t', 'K6d', 'V5', 'V7', 'V8', 'V9', 'V11', 'V12', 'V15', 'K5']},
     'C05': {'quick': ['V3', 'K12'], 'thorough': ['V3', 'K12']},
     'C12': {'quick': ['V4', 'V5', 'V6', 'V7', 'V11', 'K2', 'K3q'], 'thorough': ['V4', 'V5', 'V6', 'V7', 'V11', 'K2', 'K2y', 'K3q', 'K3t', 'K3a']},
-    'C14': {'quick': ['K11', 'K14', 'K14r', 'K14s'], 'thorough': ['K11', 'K14', 'K14r', 'K14s']},
+    'C14': {'quick': ['K11', 'K14', 'K14r', 'K14s', 'K14d', 'V14'], 'thorough': ['K11', 'K14', 'K14r', 'K14s', 'K14d', 'V14']},
     'C15': {'quick': ['V10', 'V13', 'K8'], 'thorough': ['V10', 'V13', 'K8', 'K8t']},
 }
 
